@@ -3086,8 +3086,8 @@ func (b *IPRouteBody) decodeFromBytes(data []byte, version uint8, software Softw
 		if pos+4 > rest {
 			return fmt.Errorf("MessageTableID message length invalid pos:%d rest:%d", pos, rest)
 		}
-		// frr: STREAM_GETL(s, api->mtu);
-		b.Mtu = binary.BigEndian.Uint32(data[pos : pos+4])
+		// frr: STREAM_GETL(s, api->tableid);
+		b.tableID = binary.BigEndian.Uint32(data[pos : pos+4])
 		pos += 4
 	}
 
